@@ -278,6 +278,9 @@ func NewHTTPTargeter(src io.Reader, body []byte, hdr http.Header) Targeter {
 		var line string
 		for {
 			if !sc.Scan() {
+				if err = sc.Err(); err != nil {
+					return err
+				}
 				return ErrNoTargets
 			}
 			line = strings.TrimSpace(sc.Text())
@@ -316,6 +319,11 @@ func NewHTTPTargeter(src io.Reader, body []byte, hdr http.Header) Targeter {
 			sc.Text()
 			line = strings.TrimSpace(sc.Peek())
 		}
+		if err = sc.Err(); err != nil {
+			// What follows the request line could not be read: the target
+			// may have headers and a body that never arrived.
+			return err
+		}
 		if line == "" || startsWithHTTPMethod(line) {
 			return nil
 		}
@@ -345,7 +353,7 @@ func NewHTTPTargeter(src io.Reader, body []byte, hdr http.Header) Targeter {
 			tgt.Header[tokens[0]] = append(tgt.Header[tokens[0]], tokens[1])
 		}
 		if err = sc.Err(); err != nil {
-			return ErrNoTargets
+			return err
 		}
 		return nil
 	}
@@ -371,7 +379,7 @@ func (s *peekingScanner) Err() error {
 }
 
 func (s *peekingScanner) Peek() string {
-	if !s.src.Scan() {
+	if !s.scan() {
 		return ""
 	}
 	s.peeked = s.src.Text()
@@ -380,9 +388,17 @@ func (s *peekingScanner) Peek() string {
 
 func (s *peekingScanner) Scan() bool {
 	if s.peeked == "" {
-		return s.src.Scan()
+		return s.scan()
 	}
 	return true
+}
+
+// scan advances to the next line unless the source has failed: when a read
+// fails, bufio.Scanner still hands out what it got of the line it was
+// reading as a last line. That line may end anywhere (half a URL, the
+// first headers of a target) and must not be taken for a whole one.
+func (s *peekingScanner) scan() bool {
+	return s.src.Scan() && s.src.Err() == nil
 }
 
 func (s *peekingScanner) Text() string {
